@@ -564,3 +564,50 @@ def prog_pred_enum(chunk: int, nchunks: int, depth: int = 2, limit: int | None =
         for binds in rows:
             g.emit(["pred", p, *binds])
     return g
+
+
+NONKEY = {n for n, k in TAGS if k != "k"}
+
+
+def prog_sql(seed: int, n_ops: int = 8, *, sorts: float = 1.0, selfjoin: float = 0.03) -> G:
+    """SQL-engine programs: the six unary operations, join with/without predicate, chain, nested
+    (C02, C08, C11, C17)."""
+    g = G(seed, max_rows=4)
+    rng = g.rng
+    g.engine("e0", "sql")
+    for _ in range(rng.choice([2, 2, 3])):
+        g.leaf("e0", cols=sorted(rng.sample(BASE_COLS, rng.choice([1, 2, 2, 3]))))
+    if rng.random() < 0.1:
+        g.doomed("e0")
+    if rng.random() < 0.1:
+        g.joinid("e0")
+    observed: list[str] = []
+    allow = ["calc", "dedup", "proj", "sel", "slice"] + (["sort"] if rng.random() < sorts else [])
+    for _ in range(n_ops):
+        k = rng.random()
+        t = g.pick()
+        if t is None:
+            break
+        if k < 0.62:
+            op, nc = g.rand_op(g.cols[t], allow=tuple(allow))
+            r = g.apply(t, op, nc)
+        elif k < 0.8:
+            cands = [u for u in g.cols if g.cols[u] == g.cols[t]]
+            r = g.chain(t, rng.choice(cands))
+        else:
+            def ok(u: str) -> bool:
+                shared_nonkey = (g.cols[u] & g.cols[t]) & NONKEY
+                return not shared_nonkey and (u != t or rng.random() < selfjoin)
+
+            u = g.pick(pred=ok)
+            if u is None:
+                continue
+            pred = None
+            if rng.random() < 0.45 and (g.cols[t] | g.cols[u]):
+                pred = g.pred(g.cols[t] | g.cols[u], 1)
+            r = g.join(t, u, pred)
+        observed.append(r)
+    for r in observed:
+        g.emit(["sqlexec", r])
+        g.emit(["sem", r])
+    return g
